@@ -34,7 +34,7 @@ def main():
             r = results.get(name, {})
             for p in props:
                 t0 = time.time()
-                c = sh(f'cd /verif && ./check {p} quick')
+                c = sh(f'cd /verif && VERIF_EVIDENCE_DIR=/tmp/ev ./check {p} quick')
                 lines = c.stdout.split('\n')
                 vi = [i for i, l in enumerate(lines) if l.startswith('VIOLATION') or 'BUILD FAILED' in l or 'HARNESS-ERROR' in l]
                 first = ''
